@@ -9,29 +9,30 @@ for line in subprocess.check_output(["./bin/anycheck", "-list"], text=True).spli
     rules.setdefault(pid, []).append((rid, doc))
 
 TECH = {
- "C01": "encoder/decoder pairing and kind-marking dataflow over the serialize family; per-GOARCH constant evaluation of the literal cascade; finite evaluation of the UTF-8 guard",
- "C02": "token-source dataflow of the 7 serialize implementations against a trusted encoder-language table; separator-guard normal form",
- "C03": "parser transition-table extraction (abstract interpretation over a finite character-class alphabet) and per-nesting-level inclusion in the RFC 8259 automaton",
- "C04": "transition-table obligations over all (state, class, flags): exits, termination, UTF-8 guard dominance; call-graph closure for panics and nondeterminism",
- "C05": "symbolic-interval guard-domain analysis, SAFE-INDEX on every spine index/slice, E3 ownership of spines, write-before-panic",
- "C06": "operand-role rules on Set/Unset/Merge/Pluck over resolved AST + E3 origins",
- "C07": "sibling agreement over the 7 isEqual implementations; dominance of the length check; purity via E3",
- "C08": "E3 DEEP rule: origins of every value stored into the fresh copy; scalar copy typing",
- "C09": "E3 PURE/OWN: SSA write-effect and spine-ownership analysis with fix-point function summaries",
- "C10": "tree-form skeleton extraction; branch predicates decided over the finite order types of (dot, hash); guard dominance before panicking getters",
- "C11": "tree-form write skeleton: reuse-or-replace kind triples, padding trip-count normal form, mutation frame via E3",
- "C12": "kind-table extraction from parseVal/TypeOf/getters/constructors and bijection check; value-preserving conversion chains; PRODUCERS via E3",
- "C13": "shape rules on native/Dict/Slice; fresh-result origins via E3; typing argument for non-aliasing",
- "C14": "loop-shape rule over every range loop on a spine; kind test derived from callback signature",
- "C15": "WaitGroup/Mutex protocol rules on go/cfg (must-pass-through, dominance), loop-variable capture, lock-set, E3 purity of read-only operations",
- "C16": "guard-domain interval rule; argument roles of json.Indent; inherits C02 emitter discipline",
- "C17": "Sort kind table and hand-over via E3; Reverse loop index-set normal form",
- "C18": "constant evaluation of identities; reducer-direction sibling/contradiction rule; presence-flag dataflow",
- "C19": "E3 returns-summary classification of every self-typed interface method; Init/Ego/ptr discipline; hand-out origins",
- "C20": "line-counter rule: dominance and uniqueness of the increment, transition-table delta per character class, pointer identity at nested calls, seed expression normal form",
+ "C01": "encoder/decoder pairing and float kind-marking decided on symbolic paths (SX) of the serialize family and the decoder helper; per-GOARCH constant evaluation of the literal cascade; UTF-8 guard folded over the character-class table; parser transition-table inclusion (E5)",
+ "C02": "emission folding: the serialisers' symbolic paths are folded into token sequences for 0..3 elements and compared with the JSON shape; token sources checked against a trusted encoder-language table",
+ "C03": "parser transition-table extraction (abstract evaluation of the machines' symbolic iteration paths over a finite character-class alphabet) and per-nesting-level product with an RFC 8259 automaton; wrappers folded over all short inputs",
+ "C04": "transition-table obligations over all (state, class, flags): exits, termination, UTF-8 guard; symbolic-path rule for ParseFile; call-closure rules for panics, input indexing and nondeterminism",
+ "C05": "finite folding of guard domains and of every spine index/slice against the current length over integer break-points (symbolic paths, helpers in caller context); SSA ownership analysis of spines (E3); write-before-panic on paths",
+ "C06": "operand-role rules on the symbolic paths of Set/Unset/Merge/Pluck/Keys/Values/Contains with loop-header simulation; SSA purity (E3)",
+ "C07": "truth tables over the decision atoms of the 7 isEqual implementations' symbolic paths; in-order complete element loop in normal form; purity via E3",
+ "C08": "SSA origin analysis (E3 DEEP/OWN): origins of every value stored into the fresh copy; coverage of the copy loop on symbolic paths; scalar copy typing",
+ "C09": "SSA write-effect and spine-ownership analysis (E3 PURE/OWN) with fix-point function summaries, generic instances, and ownership obligations transferred to call sites of private constructor helpers",
+ "C10": "string folding: the symbolic paths of GetTF/TypeOfTF are evaluated over every path string over {.,#,a,1} up to length 5 against a step-by-step navigation oracle on the same atoms",
+ "C11": "string folding of SetTF/UnsetTF over all short path strings: reject-before-write, reuse-or-replace kind triples, padding loop simulated with the live count, mutation frame",
+ "C12": "type-case paths of parseVal and the From-constructors (value-preserving conversion chains, element-wise construction); kind-table bijection; PRODUCERS via SSA origins (E3)",
+ "C13": "arm rules on the symbolic paths of native/NativeDict/NativeSlice/Dict (one total iteration storing native(x) into a result made on the path); fresh-result origins via E3; typing argument for non-aliasing",
+ "C14": "loop normal form (in-order visit of the receiver's spine, no early exit) and kind-test/action agreement on the symbolic paths of every typed view, including generic-helper and function-value spellings",
+ "C15": "WaitGroup/Mutex protocol on symbolic paths (step order = dominance on straight-line paths), spawned-literal bodies evaluated in their captured environment, loop-variable capture, lock set, E3 purity of read-only operations",
+ "C16": "guard domain and indentation unit folded over 0..10; argument roles of json.Indent on symbolic paths; inherits the C02 emission folding and float marking",
+ "C17": "Sort: kind test / typed slice / trusted sort / spine rebuild agreement on type-case paths; Reverse: header simulated for n=0..9 giving the exact swapped index pairs",
+ "C18": "constant evaluation of identities; accumulation operators on loop normal form; Min/Max reducers folded numerically over a float/int sample grid in their captured environment; presence-flag dataflow",
+ "C19": "SSA returns-summary classification (E3) of every self-typed interface method; Init/Ego/ptr discipline; hand-out origins",
+ "C20": "line-counter rule: transition-table delta per character class for every entry, pointer identity at nested calls, seed expression folded over short inputs, integers flowing into error formats traced on symbolic paths",
 }
-NOTE = ("Trusted base (DESIGN.md §7): go/types, go/ssa, go/cfg of x/tools v0.29.0; the library-language table for strconv / encoding/json / sort / unicode / utf8; "
-        "Go semantics of maps, append, slicing, range, sync; user callbacks are outside the library. Decides structural necessary conditions, not run-time value equality.")
+NOTE = ("Trusted base (DESIGN.md §7): go/types, go/ssa, go/packages of x/tools v0.29.0; the library-language table for strconv / encoding/json / sort / unicode / utf8 / strings; "
+        "Go semantics of maps, append, slicing, range, sync; user callbacks are outside the library. Decides structural necessary conditions (and finitely folded value conditions), not run-time value equality; "
+        "a construct outside a rule's vocabulary is reported UNDECIDED and fails the check.")
 
 props = [json.loads(l) for l in open("properties.jsonl")]
 checks, na = [], []
@@ -50,7 +51,7 @@ for p in props:
         "engine": "anycheck",
         "level_claimed": {
             "category": "other",
-            "text": ("Static analysis of /repo's current type-checked source (AST, go/cfg, go/ssa): every listed rule is a universally quantified structural clause that is a necessary condition of the property; "
+            "text": ("Static analysis of /repo's current type-checked source (syntax tree, symbolic path normal form, go/ssa): every listed rule is a universally quantified structural clause that is a necessary condition of the property; "
                      "all obligations must be discharged, an undecided or missing anchor fails. It does not prove the behavioural statement as a whole (run-time value equality is out of static reach); see DESIGN.md §4 "
                      f"for what is and is not covered. Rules: {rl}"),
             "design_ref": f"DESIGN.md §4 {pid}",
@@ -70,7 +71,7 @@ manifest = {
         "add_only": True,
     },
     "engines": [{"name": "anycheck", "path": "checker/", "serves_properties": list(rules.keys()),
-                 "kind_free_text": "purpose-built Go static analyser (go/packages + go/types + go/ssa + own CFG/dominators): origin/effect analysis, symbolic intervals, parser transition-table extraction, protocol rules"}],
+                 "kind_free_text": "purpose-built Go static analyser (go/packages + go/types + go/ssa): SSA origin/effect/ownership analysis (E3), symbolic path executor over the typed syntax tree with finite folding of terms (SX), parser transition-table extraction and automaton product (E5)"}],
     "checks": checks,
     "not_applicable": na,
     "notes": "All checks are static: they re-load /repo's working tree on every run (go/packages), never execute library code, and fail on UNDECIDED or missing anchors. KNOWN_FINDINGS.txt lists repaired defects (fixed:) and suppresses nothing.",
